@@ -92,6 +92,24 @@ func C01_Alias() {
 	nd.Observe(Skel(cmds))
 }
 
+// C01_Err: ill-formed programs whose error is found while the lexer still has
+// a here-document, a substitution or a comment of the same line to read.
+func C01_Err() {
+	t := []rune(ErrTemplates[nd.Choice(len(ErrTemplates))])
+	_, _, err, _ := parseRunes(nil, t)
+	nd.Assert(err != nil, "an ill-formed program is rejected")
+	nd.Observe(errStr(err))
+}
+
+// C01_Err1: the same with one symbolic hole.
+func C01_Err1() {
+	t := []rune(ErrTemplates[nd.Choice(len(ErrTemplates))])
+	k := nd.Choice(len(t))
+	t[k] = nd.Rune()
+	_, _, err, _ := parseRunes(nil, t)
+	nd.Observe(errStr(err))
+}
+
 // C01_AliasQ: the quick form of C01_Alias: alias a is one free ASCII byte
 // (optionally followed by a blank), alias b is "x"; the input uses both.
 func C01_AliasQ() {
